@@ -17,7 +17,7 @@
 Require Import ZArith QArith List.
 Require Import BFL.Ops BFL.ListOps BFL.C03_Model.
 From mathcomp Require Import all_ssreflect all_algebra.
-Require Import BFL.MxOps BFL.LinAlg BFL.C03_Proofs.
+Require Import BFL.MxOps BFL.LinAlg BFL.C03_Proofs BFL.C03_Circular.
 Import GRing.Theory Num.Theory.
 Local Open Scope ring_scope.
 
@@ -117,6 +117,19 @@ Theorem C03_affine_exact_augmented (Lin Lout : layout) (n q p : nat) (alpha beta
                                         (A *m mc.2 *m A^T + B *m Q *m B^T + 0) (mc.2 *m A^T)) comps)
           (repeat (1 / (length comps)%:R) (length comps))).
 Proof. by move=> HL Hn HLo pQ Hp w cp; exact: ut_generic_affine_augmented. Qed.
+
+(* every layout (Euler-circular rows, quaternion blocks, noise rows), every dimension and
+   covariance, whatever the square-root oracle returns: the first sigma point of a
+   component is its mean — exactly on linear, quaternion and noise rows, and
+   arg(exp(j m_i)) on Euler rows.  PARTIAL for the property's circular / quaternion
+   clauses: that arg(exp(j m)) = m modulo 2 pi (C19), and moment preservation /
+   affine exactness on circular and quaternion rows for spreads within a half turn
+   (needs C19's atan2 facts and C18's exp/log round trip) are not proved here; they
+   are covered by the correspondence check and the oracle. *)
+Theorem C03_first_sigma_point_partial (L : layout) (c : F) (m : 'cV[F]_(l_dim L)) (P : 'M[F]_(l_dcov L)) x :
+  List.nth 0 (sigma_comp (O:=O) L (l_dim L) (l_dcov L) c m P) x =
+  \matrix_(i, j) (if euler_row L i then C03_Model.wrap (O:=O) (m i 0) else m i j).
+Proof. exact: first_sigma_point. Qed.
 End C03.
 
 (* a failed function evaluation is reported as failure, never as a belief:
@@ -190,5 +203,6 @@ Print Assumptions C03_affine_exact.
 Print Assumptions C03_affine_exact_models.
 Print Assumptions C03_affine_exact_additive.
 Print Assumptions C03_affine_exact_augmented.
+Print Assumptions C03_first_sigma_point_partial.
 Print Assumptions C03_failure_propagates.
 Print Assumptions C03_success_propagates.
